@@ -2,9 +2,11 @@ package props
 
 import (
 	"bufio"
+	"context"
 	"crypto/tls"
 	"errors"
 	"fmt"
+	"net"
 	"net/http"
 	"net/url"
 	"strconv"
@@ -313,6 +315,22 @@ func checkC13(c OriginCase, o *Obs) error {
 	if err := judge("direct, absolute-form target", directAbs); err != nil {
 		return err
 	}
+	if oh, _ := wsref.OriginHostPort(c.Origin); c.HasOrigin && oh != "" && !strings.ContainsAny(oh, "\r\n\x00 ") {
+		// the request URL names the Origin's host (a request rewritten by
+		// middleware, or sent in absolute form with another Host header): the
+		// policy compares with the request's Host
+		foreignURL := &http.Request{Method: "GET", URL: &url.URL{Scheme: "http", Host: oh, Path: "/chat"}, Proto: "HTTP/1.1", ProtoMajor: 1, ProtoMinor: 1, Header: h.Clone(), Host: c.Host}
+		if err := judge("direct, request URL names the Origin's host", foreignURL); err != nil {
+			return err
+		}
+		// the listener's own address (what net/http puts into the request context)
+		// is the Origin's host: that does not make the Origin the request's Host
+		ctxReq := (&http.Request{Method: "GET", URL: &url.URL{Path: "/"}, Proto: "HTTP/1.1", ProtoMajor: 1, ProtoMinor: 1, Header: h.Clone(), Host: c.Host}).WithContext(context.WithValue(context.Background(), http.LocalAddrContextKey, net.Addr(fakeAddr(oh))))
+		if err := judge("direct, listener address equals the Origin's host", ctxReq); err != nil {
+			return err
+		}
+		o.Class("request_url_or_listener_names_the_origin_host")
+	}
 	rawAbs := "GET http://" + c.Host + "/chat?room=1 HTTP/1.1\r\n" + strings.TrimPrefix(raw, "GET / HTTP/1.1\r\n")
 	if pr, err := http.ReadRequest(bufio.NewReader(strings.NewReader(rawAbs))); err == nil && pr.Host == c.Host && pr.URL.Host == c.Host && (!c.HasOrigin || sameStrings(pr.Header["Origin"], origins)) {
 		o.Class("via_net_http_absolute_form")
@@ -335,6 +353,11 @@ func checkC13(c OriginCase, o *Obs) error {
 	}
 	return nil
 }
+
+type fakeAddr string
+
+func (a fakeAddr) Network() string { return "tcp" }
+func (a fakeAddr) String() string  { return string(a) }
 
 func sameStrings(a, b []string) bool {
 	if len(a) != len(b) {
